@@ -51,7 +51,7 @@ def theorems_of(pid):
             m = re.match(r"^end\s+(\S+)", line)
             if m and stack and stack[-1].split(".")[-1] == m.group(1).split(".")[-1]:
                 stack.pop(); continue
-            m = re.match(r"^\s*(?:@\[[^\]]*\]\s*)?(?:protected\s+|private\s+)?theorem\s+([^\s:({\[]+)", line)
+            m = re.match(r"^\s*(?:@\[[^\]]*\]\s*)?(?:protected\s+)?theorem\s+([^\s:({\[]+)", line)
             if m and re.search(pat, m.group(1)):
                 full = ".".join(stack + [m.group(1)]) if not m.group(1).startswith("_root_") else m.group(1)[7:]
                 names.append(full)
@@ -117,6 +117,8 @@ def proof_side(pid, res, tier):
         extra = set(ax) - ALLOWED_AXIOMS
         if pid in NATIVE_OK:
             extra -= NATIVE_AXIOMS
+            # Lean 4.33 records each native_decide as an axiom `<thm>._native.native_decide.ax_…`
+            extra = {a for a in extra if "._native.native_decide.ax_" not in a}
         if not extra and "sorryAx" not in ax:
             info["discharged"] += 1
         else:
